@@ -332,7 +332,8 @@ def check_C06(tier):
         "other",
         "(Typestate, E4) at every exit of parse_number either many_digits is set or both input iterators are exhausted; parse_number_fast returns "
         "Some only with both exhausted: a digit can be left unread by the 19-digit stage only if the result says so; at every exit of "
-        "slow::parse_mantissa either both iterators are exhausted or the returned digit count has reached max_digits. "
+        "slow::parse_mantissa either both iterators are exhausted or the returned digit count has reached max_digits; an exit whose count exceeds "
+        "max_digits (the sticky digit was appended) has read a provably non-zero input byte last (trailing zeros never break a tie). "
         "The flag is honoured by the middle stage (E4, both formats, dbg and rel): entered with many_digits set, lemire::<F> reaches a return only declined, "
         "or after evaluating compute_float on w and on w+1 (argument interval shifted by exactly one) and comparing the two results; bellerophon::<F> "
         "calls error_is_accurate only with an estimate of at least error_scale() (one unit of the significand in the estimate's own unit, read from the code). "
